@@ -11,6 +11,8 @@
    Deviation constants (TRUE = literal behaviour of the pinned tree, FALSE = repaired behaviour):
      DevInvalSkipsClean    flush_cached_blocks(FLUSH_INVALIDATE) leaves clean in-use entries valid
      DevZeroBypassesCache  unix_zeroout()/unix_discard() never look at the cache
+     DevWriteEvictErrLost  unix_write_blk64() returns 0 when writing back the dirty victim of a slot it wants to
+                           reuse fails (the error of reuse_cache() is dropped; the rest of the request is not stored)
    Precondition constant:
      TogglePre             TRUE = content-changing calls are not issued while the cache is switched off by
                            set_option("cache=off") and still holds entries (the only in-tree use of the toggle,
@@ -19,7 +21,7 @@
    Device write failures: every call takes the set F of indices (1 = first device write attempt of this call)
    of the write(2)/pwrite(2) attempts that fail with EIO and no effect.                                      *)
 EXTENDS Integers, Sequences, FiniteSets, TLC
-CONSTANTS NG, K, D, InitBS, DevInvalSkipsClean, DevZeroBypassesCache, TogglePre
+CONSTANTS NG, K, D, InitBS, DevInvalSkipsClean, DevZeroBypassesCache, DevWriteEvictErrLost, TogglePre
 VARIABLES dev,      \* [G -> tag]     backing file content (channel coordinates)
           slot,     \* [1..K -> [blk, use, dirty, werr, data]]   data = <<tag>> * bs while in use
           lru,      \* in-use slot indices, smallest access_time first
@@ -232,7 +234,7 @@ Write(blk, cnt, tags, F) ==
       ELSE LET c0 == IF cfg.wt THEN RawWrite(C0, blk * bs, data, F, TRUE, blk) ELSE C0   \* WriteCached
                wtok == c0.ok
                c == WriteLoop(c0, blk, cnt, data, F)
-               ret == IF c.ok /\ wtok THEN 0 ELSE 1
+               ret == IF (c.ok \/ DevWriteEvictErrLost) /\ wtok THEN 0 ELSE 1    \* pinned: `err` of reuse_cache is dropped
            IN Commit(c, "write", ret, rng, tags, Written(rng, tags, ret), cfg)
 
 \* unix_write_byte(offset, size): off, n in granules
@@ -298,10 +300,11 @@ CacheOn ==
    /\ Commit(C0, "other", 0, {}, <<>>, logical, [cfg EXCEPT !.nocache = FALSE])
 
 \* unix_open (+ the configuration the caller applies right after it)
-Open(wt, bounce, handler, align0) ==       \* align0: channel->align as set by IO_FLAG_DIRECT_IO (0 otherwise)
+Open(wt, bounce, handler, align0, nocache0) ==   \* align0: channel->align as set by IO_FLAG_DIRECT_IO (0 otherwise);
+                                                  \* nocache0: set_option("cache=off") right after the open (no entries yet)
    /\ ~open /\ open' = TRUE /\ bs' = InitBS
    /\ dev' = dev /\ slot' = NoSlots /\ lru' = <<>> /\ logical' = logical /\ unrep' = unrep
-   /\ cfg' = [nocache |-> FALSE, wt |-> wt, bounce |-> bounce, handler |-> handler, align |-> align0]
+   /\ cfg' = [nocache |-> nocache0, wt |-> wt, bounce |-> bounce, handler |-> handler, align |-> align0]
    /\ res' = [op |-> "open", ret |-> 0, rng |-> {}, data |-> <<>>, rok |-> TRUE, ev |-> <<>>, hb |-> <<>>,
               nfail |-> 0, fg |-> {}]
 
